@@ -173,7 +173,7 @@ def user_rows_fn(spec):
     elif name == 'double':
         def rows_fn(rows):
             for r in rows:
-                twin = dict(r)      # copied BEFORE r is handed downstream (downstream may edit r in place)
+                twin = copy.deepcopy(r)     # an independent copy, taken BEFORE r is handed downstream
                 yield r
                 yield twin
     elif name == 'identity':
@@ -685,6 +685,13 @@ def data_dependent_rejection(exc):
         msg = str(rc)
         if 'empty' in msg or 'division' in msg or 'zero' in msg.lower():
             return 'add_computed_field: numeric fold over all-null sources'
+        if 'unsupported operand' in msg and 'Decimal' in msg and 'float' in msg:
+            # a 'number' column may hold Decimals (casts) and floats (e.g. an average of integers): Python cannot mix them
+            return 'add_computed_field: Decimal and float values mixed in one numeric fold'
+    if isinstance(rc, TypeError) and 'not JSON serializable' in str(rc) and 'dumpers' in fr:
+        # arrays / objects holding non-JSON-native members (Decimals, dates collected by a join) are outside the
+        # file dumpers' domain (C03 quantifies over JSON-native nesting)
+        return 'dumper: array/object value with non-JSON-native members'
     if isinstance(rc, AssertionError) and 'empty row' in str(rc):
         return 'concatenate: empty row'
     return None
